@@ -161,6 +161,12 @@ pub fn filter_case_with(cfg: GenCfg, nctx: usize, ch: &mut Choices<'_>, st: &mut
         }
         if shape.calls > 0 {
             st.class("filter-with-call");
+            if predicted.iter().any(|p| p.rec.args.is_empty()) {
+                st.class("call-without-arguments");
+            }
+            if predicted.iter().any(|p| p.rec.name == "optb") {
+                st.class("call-of-function-with-optional-parameters-only");
+            }
             // per-context facts
             let dropped = predicted.iter().any(|p| p.rec.name == "dropodd" && matches!(p.rec.args.first(), Some(Ok(MVal::Int(i))) if i & 1 == 1));
             let absent_arg = predicted.iter().any(|p| p.rec.args.iter().any(|a| a.is_err()));
